@@ -8,7 +8,8 @@
    pseudo_selections, pseudo_expected, ...) are at the top of Proofs/HeaderCollectProofs.v and
    Proofs/HeaderWireProofs.v. *)
 From ReqV Require Import Lib.Bytes Model.HeaderOrder Model.HeaderCollect
-  Proofs.HeaderOrderProofs Proofs.HeaderCollectProofs Proofs.HeaderWireProofs.
+  Proofs.HeaderOrderProofs Proofs.HeaderCollectProofs Proofs.HeaderWireProofs Proofs.HeaderSyncProofs
+  Gen.HeaderSrc.
 From Coq Require Import Permutation Sorting.Sorted.
 
 (* ===================== part 1: header.SortKeyValues ===================== *)
@@ -320,6 +321,37 @@ Theorem C16_h3_order_independent_of_map_iteration : forall q h',
    map (line_rank (order_list (c_hdr q))) (h3_regular_lines q)).
 Proof. exact h3_order_independent_of_map_iteration. Qed.
 Print Assumptions C16_h3_order_independent_of_map_iteration.
+
+(* ===================== part 3: the source the model transcribes ===================== *)
+(* Gen/HeaderSrc.v is regenerated from the working tree on every run; these statements pin the text
+   of the small functions the model was written from and the names the collectors write. *)
+Theorem C16_sort_go_as_modelled :
+  src_canonicalKey = bs "{ if strings.HasPrefix(key, "":"") { return strings.ToLower(key) } return textproto.CanonicalMIMEHeaderKey(key) }" /\
+  src_sorter_rank = bs "{ if index, ok := s.order[canonicalKey(s.kvs[i].Key)]; ok { return index } return s.unlisted }" /\
+  src_sorter_Less = bs "{ return s.rank(i) < s.rank(j) }" /\
+  src_sorter_Swap = bs "{ s.kvs[i], s.kvs[j] = s.kvs[j], s.kvs[i] }" /\
+  src_SortKeyValues = bs "{ order := make(map[string]int) for i, key := range orderedKeys { order[canonicalKey(key)] = i } s := &sorter{order: order, unlisted: len(orderedKeys), kvs: kvs} sort.Stable(s) }".
+Proof. exact sort_go_as_modelled. Qed.
+Print Assumptions C16_sort_go_as_modelled.
+
+Theorem C16_is_excluded_go_as_modelled :
+  src_IsExcluded = bs "{ if reqWriteExcludeHeader[strings.ToLower(key)] { return true } return false }".
+Proof. exact is_excluded_go_as_modelled. Qed.
+Print Assumptions C16_is_excluded_go_as_modelled.
+
+Theorem C16_writer_names_as_modelled :
+  h1_writer_names = [bs "Host"; bs "User-Agent"] /\
+  h2_writer_names = [bs ":authority"; bs ":method"; bs ":path"; bs ":scheme"; bs "trailer"; bs "cookie";
+                     bs "content-length"; bs "accept-encoding"; bs "user-agent"] /\
+  h3_writer_names = [bs ":authority"; bs ":method"; bs ":path"; bs ":scheme"; bs ":protocol"; bs "trailer";
+                     bs "content-length"; bs "accept-encoding"; bs "user-agent"].
+Proof. exact writer_names_as_modelled. Qed.
+Print Assumptions C16_writer_names_as_modelled.
+
+Theorem C16_pseudo_default_order_from_source : forall q,
+  map fst (pseudo_kvs q) = firstn 4 h2_writer_names /\ map fst (pseudo_kvs q) = firstn 4 h3_writer_names.
+Proof. exact pseudo_default_order_from_source. Qed.
+Print Assumptions C16_pseudo_default_order_from_source.
 
 Example C16_nonvacuous :
   let order := [bs "x-b"; bs "COOKIE"; bs "x-a"; bs "x-b"] in
